@@ -12,7 +12,12 @@ Monitors:
   (2) T1 over several graphs: twin execution parallel vs sequential on identical worlds under a 1 us switch
       interval and random delays injected into the store's per-graph reads (so completion orders vary);
       graph_deltas and every counter compared exactly (gated parallel metrics excluded by name);
-  (3) T2 over shards: twin execution of t2_semantic with perf.parallel.t2 on vs off, results compared.
+  (3) T2 over shards: twin execution of t2_semantic with perf.parallel.t2 on vs off, results compared; the
+      end-to-end fan-out cannot run on this tree (known finding), so its two halves are also monitored on their
+      own: the cross-shard merge against a tier-walk model on generated shard hits (ids re-delivered by later
+      tiers and by several shards, score ties on the 1e-9 grid, every K). (collect_shard_hits, the other half,
+      returns no hits at all on this tree - it passes recent_days=None, which the index rejects and the helper
+      swallows - so a sharded-vs-unsharded twin of it would compare empty lists; that is part of the known finding.)
 """
 from __future__ import annotations
 
@@ -90,7 +95,9 @@ def helper_case(case, sess: Session):
     def controller():
         for t in order:
             # release next task; wait until it really finished before releasing the following one
-            if not started[t].wait(10):
+            if not started[t].wait(0.4 if stop[0] else 2.0):
+                # the helper has not handed this task to a worker although the forced order says it could run now:
+                # stop steering (release everything) - the result oracle below does not depend on the order
                 stop[0] = True
                 break
             go[t].set()
@@ -127,11 +134,10 @@ def helper_case(case, sess: Session):
     if w >= 2 and n >= 3:
         sess.sample({**case, "finish_order_observed": list(finished)})
     if stop[0]:
-        sess.inconclusive_because("controller could not force a completion order (task never started)")
-        return
+        sess.count("forced_order_abandoned(task not started while a worker was free)")
     if w >= 2 and n > 0:
         sess.seen("distinct_completion_orders", (n, min(w, n), tuple(finished)))
-        if tuple(finished) != tuple(order):
+        if tuple(finished) != tuple(order) or stop[0]:
             sess.count("forced_order_not_realised")
         elif list(finished) != sorted(finished) and n >= 2:
             sess.nontrivial.add(chash((n, w, tuple(finished), tuple(map(str, keys)), tuple(sorted(failing)))))
@@ -219,6 +225,8 @@ def gen_helper_cases(tier, rng):
                 started.add(len(started))
         keys = [rng.randint(0, 3) for _ in range(n)]
         fs = rng.sample(range(n), rng.choice([0, 0, 1, 2, 3]))
+        if rng.random() < 0.3:
+            fs = sorted({0, n - 1, rng.randrange(n)})  # failures far apart in submit order
         cases.append({"n": n, "workers": w, "keys": keys, "failing": fs, "order": order, "okey": "id"})
     return cases
 
@@ -367,6 +375,66 @@ def gen_t2_case(rng):
     return {"eps": w["eps"], "t2": t2, "query": " ".join(rng.sample(["hello", "world", "cat", "moon", "river"], 2)), "workers": rng.choice([2, 3, 4, 8]), "perf_on": rng.random() < 0.5}
 
 
+# ------------------------------------------------------------------------------ shard merge (helper level)
+def model_merge(shards, tiers, k):
+    """Documented rule: walk tiers in order; per tier all hits of all shards sorted by (score desc [1e-9 grid], id asc);
+    ids already delivered are skipped; stop at k."""
+    out, seen, used = [], set(), []
+    for t in tiers:
+        used.append(t)
+        bucket = [h for d in shards for h in (d.get(t) or [])]
+        bucket.sort(key=lambda h: (-int(round(float(h["score"]) * 1_000_000_000)), str(h["id"])))
+        for h in bucket:
+            if str(h["id"]) in seen:
+                continue
+            out.append((str(h["id"]), float(h["score"])))
+            seen.add(str(h["id"]))
+            if len(out) >= k:
+                return out, used
+    return out, used
+
+
+def merge_case(case, sess: Session):
+    from clematis.engine.stages.t2.shard import merge_tier_hits_across_shards_dict
+
+    shards, tiers, k = case["shards"], case["tiers"], case["k"]
+    got, used = merge_tier_hits_across_shards_dict(copy.deepcopy(shards), list(tiers), k)
+    exp, exp_used = model_merge(shards, tiers, k)
+    sess.evaluations += 1
+    sess.count("shard_merge_cases")
+    g = [(str(h.get("id")), float(h.get("score"))) for h in got]
+    redelivered = any(str(h["id"]) in {str(x["id"]) for d in shards for x in (d.get(tiers[0]) or [])} for t in tiers[1:] for d in shards for h in (d.get(t) or [])) if tiers else False
+    if len(shards) >= 2 and len(tiers) >= 2 and redelivered:
+        sess.nontrivial.add(chash(("merge", case)))
+        sess.count("shard_merge_cases_with_ids_redelivered_by_later_tier")
+    if len(exp) == k and len(tiers) >= 2:
+        sess.count("shard_merge_cases_filled_to_k")
+    if g != exp:
+        sess.violation("shard-merge:differs-from-tier-walk-model", case, {"got": g[:8], "exp": exp[:8]})
+    elif list(used) != exp_used:
+        sess.violation("shard-merge:tier-sequence-differs", case, {"got": used, "exp": exp_used})
+
+
+def gen_merge_case(rng):
+    tiers = rng.sample(["exact_semantic", "cluster_semantic", "archive"], rng.randint(1, 3))
+    ns = rng.randint(1, 5)
+    ids = [f"e{i}" for i in range(rng.randint(1, 14))]
+    grid = [round(x * 0.125, 3) for x in range(-2, 9)]
+    # one score per (id, tier): a shard partition holds disjoint episodes, but overlapping shards are legal input too
+    shards = [dict() for _ in range(ns)]
+    for t in tiers:
+        for e in ids:
+            if rng.random() < 0.6:
+                sc = rng.choice(grid)
+                homes = [rng.randrange(ns)] if rng.random() < 0.85 else rng.sample(range(ns), min(ns, 2))
+                for hshard in homes:
+                    shards[hshard].setdefault(t, []).append({"id": e, "score": sc, "text": f"t-{e}"})
+    for d in shards:
+        for t in d:
+            d[t].sort(key=lambda h: (-h["score"], h["id"]))
+    return {"shards": shards, "tiers": tiers, "k": rng.choice([1, 2, 3, 4, 6, 8, 20])}
+
+
 # ------------------------------------------------------------------------------ driver
 def _work(args):
     what, tier, seed, payload = args
@@ -386,6 +454,10 @@ def _work(args):
             rng = random.Random(f"C09/t2/{seed}/{payload}")
             for _ in range(8 if tier == "quick" else 150):
                 t2_twin(gen_t2_case(rng), sess)
+        elif what == "merge":
+            rng = random.Random(f"C09/merge/{seed}/{payload}")
+            for _ in range(300 if tier == "quick" else 6000):
+                merge_case(gen_merge_case(rng), sess)
     except Exception as ex:
         import traceback
         sess.inconclusive_because(f"harness error {type(ex).__name__}: {ex} @ {traceback.format_exc()[-500:]}")
@@ -403,6 +475,7 @@ def main(tier: str, seed: int):
     jobs = [("helper", tier, seed, cases[i::nj]) for i in range(nj)]
     jobs += [("t1", tier, seed, i) for i in range(5 if tier == "quick" else 14)]
     jobs += [("t2", tier, seed, i) for i in range(5 if tier == "quick" else 14)]
+    jobs += [("merge", tier, seed, i) for i in range(2 if tier == "quick" else 8)]
     for ex in par.pmap(_work, jobs):
         sess.merge(ex)
     sess.extra["helper_cases_generated"] = len(cases)
@@ -411,6 +484,8 @@ def main(tier: str, seed: int):
     sess.require("t1_twins", 60)
     sess.require("t2_twins", 30)
     sess.require("t2_twins_with_2plus_shards", 10)
+    sess.require("shard_merge_cases", 500)
+    sess.require("shard_merge_cases_with_ids_redelivered_by_later_tier", 50)
     sess.finish()
 
 
@@ -420,6 +495,8 @@ def replay(body, tier, seed):
     case = unjson(body["case"])
     if "failing" in case:
         helper_case(case, sess)
+    elif "shards" in case:
+        merge_case(case, sess)
     elif "graphs" in case:
         t1_twin(case, sess)
     else:
